@@ -3,12 +3,13 @@ C04 — Models: batch equals single evaluation; derivatives are the true derivat
 
 Models: `Model/Models.lean` (dense layers with element-wise activations,
 normalizer/softmax rows, concatenations of any length) and `Model/Models2.lean`
-(`Normalizer`, `Classifier`, max pooling, spline resize as a linear gather, `RBFLayer`,
+(`Normalizer`, `Classifier`, max pooling, spline resize as a linear gather, `Conv2DModel`, `RBFLayer`,
 `KernelExpansion`, `Ensemble`, `CMACMap`), tied to the C++ classes by `checks/c04.py`.
 Sections 1-3: single dense layers and the abstract chain rule; section 4: the executable
 backward pass of `ConcatenatedModel` (proved by induction over the chain in
 `Lemmas/ChainDeriv.lean`); section 5: the further model types (proofs in
-`Lemmas/ModelsIndex.lean`, `Lemmas/ModelsPool.lean`, `Lemmas/ModelsRBF.lean`).
+`Lemmas/ModelsIndex.lean`, `Lemmas/ModelsPool.lean`, `Lemmas/ModelsRBF.lean`,
+`Lemmas/ModelsConv.lean`).
 -/
 import SharkVerif.Lemmas.Models
 import SharkVerif.Lemmas.ModelsDeriv
@@ -16,6 +17,7 @@ import SharkVerif.Lemmas.ChainDeriv
 import SharkVerif.Lemmas.ModelsIndex
 import SharkVerif.Lemmas.ModelsPool
 import SharkVerif.Lemmas.ModelsRBF
+import SharkVerif.Lemmas.ModelsConv
 namespace SharkVerif.C04
 open SharkVerif.Models Scalar
 
@@ -766,6 +768,52 @@ theorem ensemble_vote_sums_to_one (n : Nat) (ws : List Rat) (resp : List Nat) (h
     (hlen : ws.length = resp.length) (hw : sumL ws ≠ 0) : sumR n (ensembleVote ws resp) = 1 :=
   ensembleVote_sum n ws resp hr hlen hw
 
+/-- a voting ensemble of `Classifier<LinearModel>` members satisfies batch = single as well -/
+theorem ensemble_vote_batch_eq_single (tanh : Rat → Rat) (ws : List Rat) (members : List (Dense Rat))
+    (X : Nat → Nat → Rat) (i k : Nat) :
+    ensembleVote ws (members.map fun m => classifyRow m.nOut false (fun _ => 0) (m.evalB tanh X i)) k =
+    ensembleVote ws (members.map fun m => classifyRow m.nOut false (fun _ => 0) (m.eval tanh (X i))) k := by
+  have : (members.map fun m => classifyRow m.nOut false (fun _ => (0 : Rat)) (m.evalB tanh X i)) =
+      members.map fun m => classifyRow m.nOut false (fun _ => (0 : Rat)) (m.eval tanh (X i)) := by
+    apply List.map_congr_left
+    intro m _
+    exact classifier_batch_eq_single tanh m false _ X i
+  rw [this]
+
+/-! ### `Conv2DModel` -/
+theorem conv2d_batch_eq_single (tanh : Rat → Rat) (m : Conv Rat) (X : Nat → Nat → Rat) (i o : Nat) :
+    m.evalB tanh X i o = m.evalRow tanh (X i) o := conv_batch_eq_single tanh m X i o
+theorem conv2d_params_roundtrip (m : Conv Rat) (p : List Rat) (hp : p.length = m.numberOfParameters) :
+    (m.setParams p).params = p ∧ m.params.length = m.numberOfParameters :=
+  ⟨conv_params_setParams m p hp, conv_params_length m⟩
+/-- **weighted input derivative of the convolution** (both paddings, any activation away from its kink) -/
+theorem conv2d_input_derivative_correct (m : Conv ℝ) (B : ℕ) (X C : ℕ → ℕ → ℝ) (i0 j0 : ℕ) (hi0 : i0 < B)
+    (hnk : ConvNoKink m B X) :
+    HasDerivAt (fun t => ∑ i ∈ Finset.range B, ∑ o ∈ Finset.range m.nOut,
+        C i o * m.evalB Real.tanh (fun i j => if i = i0 ∧ j = j0 then t else X i j) i o)
+      (m.gradX (m.evalB Real.tanh X) C i0 j0) (X i0 j0) :=
+  conv_input_derivative_correct m B X C i0 j0 hi0 hnk
+/-- **weighted parameter derivative, filter entries** (at their position in the gradient vector) -/
+theorem conv2d_filter_gradient_correct (m : Conv ℝ) (B : ℕ) (X C : ℕ → ℕ → ℝ) (q0 : ℕ)
+    (hq0 : q0 < m.nf * m.fsize) (hfs : 0 < m.fsize) (hnk : ConvNoKink m B X) :
+    HasDerivAt (fun t => ∑ i ∈ Finset.range B, ∑ o ∈ Finset.range m.nOut, C i o *
+        ({ m with filt := fun q => if q = q0 then t else m.filt q } : Conv ℝ).evalB Real.tanh X i o)
+      (m.gradFilt B X (m.evalB Real.tanh X) C q0) (m.filt q0) ∧
+    (m.gradParams B X (m.evalB Real.tanh X) C).getD q0 0 = m.gradFilt B X (m.evalB Real.tanh X) C q0 ∧
+    m.params.getD q0 0 = m.filt q0 :=
+  ⟨conv_filter_derivative_correct m B X C q0 hq0 hfs hnk, conv_gradParams_filt_pos m B X _ C q0 hq0,
+   conv_params_filt_pos m q0 hq0⟩
+/-- **weighted parameter derivative, offsets** -/
+theorem conv2d_offset_gradient_correct (m : Conv ℝ) (B : ℕ) (X C : ℕ → ℕ → ℝ) (f0 : ℕ) (hf0 : f0 < m.nf)
+    (hnk : ConvNoKink m B X) :
+    HasDerivAt (fun t => ∑ i ∈ Finset.range B, ∑ o ∈ Finset.range m.nOut, C i o *
+        ({ m with off := fun f => if f = f0 then t else m.off f } : Conv ℝ).evalB Real.tanh X i o)
+      (m.gradOff B (m.evalB Real.tanh X) C f0) (m.off f0) ∧
+    (m.gradParams B X (m.evalB Real.tanh X) C).getD (m.nf * m.fsize + f0) 0 = m.gradOff B (m.evalB Real.tanh X) C f0 ∧
+    m.params.getD (m.nf * m.fsize + f0) 0 = m.off f0 :=
+  ⟨conv_offset_derivative_correct m B X C f0 hf0 hnk, conv_gradParams_off_pos m B X _ C f0 hf0,
+   conv_params_off_pos m f0 hf0⟩
+
 /-! ### `CMACMap` -/
 theorem cmac_batch_eq_single' (toNat : Rat → Nat) (m : CMAC Rat) (X : Nat → Nat → Rat) (i o : Nat) :
     m.evalB toNat X i o = m.eval toNat (X i) o := cmac_batch_eq_single toNat m X i o
@@ -783,5 +831,20 @@ example : demo.params = [0, 2, 1, 3, 0, 1] := by decide
 example : demo.params.length = demo.numberOfParameters := params_length demo
 example : demo.preB (fun i j => (i + j : Nat)) 1 1 = 8 := by
   simp [demo, Dense.preB, sumR, sumL, List.range_succ]; norm_num
+
+/-- the chain theorems are not vacuous: a four-layer chain (tanh dense 2→3, frozen logistic neurons, linear
+dense 3→2, frozen softmax) fits and has no kinks for any batch (`Lemmas/ChainDeriv.lean`, `chainDemo`) -/
+example : Chain.WF chainDemo 2 := ⟨rfl, rfl, rfl, rfl, trivial⟩
+example (B : ℕ) (X C : ℕ → ℕ → ℝ) (hB : 0 < B) :
+    HasDerivAt (fun t => chainDemo.objective B 2 (fun i j => if i = 0 ∧ j = 1 then t else X i j) C)
+      ((chainDemo.backward Real.tanh Real.exp B X C).2 0 1) (X 0 1) :=
+  chain_input_derivative_correct chainDemo B 2 X C 0 1 hB (by norm_num) ⟨rfl, rfl, rfl, rfl, trivial⟩
+    (by simp [chainDemo, chainDemoPre, chainDemoMid, chainDemoPost, Chain.NoKink, Layer.NoKink])
+example : argmax 3 (fun k => if k = 1 then (5 : Rat) else 2) = 1 :=
+  classifier_argmax_unique 3 _ (by decide) 1 (by decide)
+    (by intro k hk; interval_cases k <;> norm_num) (by intro k hk; interval_cases k; norm_num)
+example : (Chain.setParams ([(Layer.dense demo, true), (Layer.neuron .tanh 2, false)] : Chain Rat) [1, 2, 3, 4, 5, 6]).params
+    = [1, 2, 3, 4, 5, 6] :=
+  chain_params_setParams _ _ (by simp [Chain.numberOfParameters, Layer.numberOfParameters, Dense.numberOfParameters, demo])
 
 end SharkVerif.C04
